@@ -71,7 +71,8 @@ PURE_ON = {"channel_": ("fd", "isWriting", "isReading", "isNoneEvent"),
            "state_": ("load",)}
 PURE_FREE = ("__errno_location",)
 LOG_PURE = ("operator<<", "stream", "fd", "stateToString", "strerror_tl", "reventsToString", "eventsToString",
-            "operator->", "operator*", "get", "c_str", "name", "toIpPort", "logLevel", "__errno_location")
+            "operator->", "operator*", "get", "c_str", "name", "toIpPort", "logLevel", "__errno_location",
+            "localAddress", "peerAddress", "connected")
 FUNCTOR_BUILDERS = ("bind", "makeWeakCallback", "shared_from_this", "operator->", "operator*")
 # types whose construction / conversion is not an action
 VALUE_TYPES = ("std::", "shared_ptr<", "weak_ptr<", "muduo::net::TcpConnectionPtr", "TcpConnectionPtr", "muduo::StringPiece",
@@ -532,6 +533,100 @@ class Walker:
         self.expr(s, out)
 
 
+class FreeWalker(Walker):
+    """Free functions of TcpConnection.cc (the notification trampolines, the default callbacks) and
+    `WeakCallback::operator()`: the objects are parameters, locals and (WeakCallback) members, by name.
+    Extra vocabulary: `shared_ptr p(<weak>.lock())` -> `lockWeak <weak> <p>`; `<callable>(args)` on a parameter / member
+    function object -> `invoke <callable> <args>`; `buf->retrieveAll()` on a Buffer parameter -> `bufOp`.
+    `operator bool` / `get()` of a local smart pointer and `std::forward` are values.  For `WeakCallback` the forwarded
+    parameter pack is printed as `args...` whatever its length, so that every instantiation has the same skeleton."""
+    LOCAL_PURE = ("get",)
+
+    def obj_name(self, base):
+        if base is None:
+            return None
+        b = deref(base)
+        if b.get("kind") == "DeclRefExpr" and b.get("referencedDecl", {}).get("kind") in ("VarDecl", "ParmVarDecl"):
+            return b["referencedDecl"]["name"]
+        return this_member(base)
+
+    def is_forward(self, a):
+        a = peel(a)
+        return a.get("kind") == "CallExpr" and callee_name(a) == "forward"
+
+    def classify(self, n):
+        k = n.get("kind")
+        nm = callee_name(n)
+        args = kids(n)[1:]
+        if k == "CXXMemberCallExpr":
+            callee = peel(kids(n)[0])
+            obj = self.obj_name(kids(callee)[0] if kids(callee) else None)
+            if obj is None:
+                self.err("call of `%s` on an object I cannot name" % nm)
+            if nm.startswith("operator ") and not args:
+                return None, True                                       # `if (conn)`: the pointer read as a boolean
+            if nm in self.LOCAL_PURE and not args:
+                return None, True
+            if nm in BUF_OPS:
+                return ".bufOp .%s %s %s" % (nm, lean_str(obj), lean_str(", ".join(self.pp(a) for a in args))), True
+            self.err("call of `%s` on `%s` is not in the vocabulary" % (nm, obj))
+        if k == "CXXOperatorCallExpr":
+            if nm in ("operator->", "operator*"):
+                return None, True
+            if nm == "operator()" and args:
+                obj = self.obj_name(args[0])
+                if obj is None:
+                    self.err("call of a function object I cannot name")
+                shown = [self.pp(a) for a in args[1:] if not self.is_forward(a)]
+                if self.cls == "WeakCallback":
+                    shown.append("args...")
+                return ".invoke %s %s" % (lean_str(obj), lean_str(", ".join(shown))), True
+            self.err("operator call `%s` is not in the vocabulary" % nm)
+        if k == "CallExpr" and nm == "forward":
+            return None, True
+        self.err("call of `%s` is not in the vocabulary" % nm)
+
+    def stmt(self, s, out):
+        if s.get("kind") == "DeclStmt" and len(kids(s)) == 1 and kids(s)[0].get("kind") == "VarDecl" and kids(kids(s)[0]):
+            v = kids(s)[0]
+            e = peel(kids(v)[0])
+            while e.get("kind") in CTOR_KINDS and len(kids(e)) == 1:
+                e = peel(kids(e)[0])
+            if e.get("kind") == "CXXMemberCallExpr" and callee_name(e) == "lock" and len(kids(e)) == 1:
+                callee = peel(kids(e)[0])
+                obj = self.obj_name(kids(callee)[0] if kids(callee) else None)
+                if obj is None:
+                    self.err("lock() on an object I cannot name")
+                out.append(("act", ".lockWeak %s %s" % (lean_str(obj), lean_str(v["name"]))))
+                return
+        Walker.stmt(self, s, out)
+
+
+def free_function(name):
+    docs = ast_dump("muduo/net/TcpConnection.cc", name)
+    fs = [f for d in docs for f in walk(d) if f.get("kind") == "FunctionDecl" and f.get("name") == name and body_of(f) is not None]
+    seen, uniq = set(), []
+    for f in fs:
+        if f.get("id") not in seen:
+            seen.add(f.get("id"))
+            uniq.append(f)
+    if len(uniq) != 1:
+        raise ExtractError("expected exactly one definition of %s, found %d" % (name, len(uniq)))
+    return uniq[0]
+
+
+def weak_callback_instances():
+    docs = ast_dump("muduo/net/TcpConnection.cc", "muduo::WeakCallback")
+    ms = [m for d in docs for sp in walk(d) if sp.get("kind") == "ClassTemplateSpecializationDecl" and sp.get("name") == "WeakCallback"
+          for m in kids(sp) if m.get("kind") == "CXXMethodDecl" and m.get("name") == "operator()" and body_of(m) is not None]
+    if not ms:
+        raise ExtractError("WeakCallback::operator(): no instantiation in TcpConnection.cc")
+    return ms
+
+
+FREE_FUNCTIONS = ["notifyWriteComplete", "notifyHighWaterMark", "defaultConnectionCallback", "defaultMessageCallback"]
+
+
 def render(items, ind):
     pad = " " * ind
     lines = []
@@ -576,7 +671,7 @@ def generate():
     conn.generate()            # fills conn.SITES / conn.CAS for the tree as it is now (same cached AST dump)
     docs = ast_dump("muduo/net/TcpConnection.cc", "muduo::net::TcpConnection")
     cdocs = ast_dump("muduo/net/Channel.cc", "muduo::net::Channel::handleEventWithGuard")
-    out = [HEADER % "muduo/net/TcpConnection.cc, Channel.cc", "import MuduoVerif.Model.ConnSkelDecl\n", HEAD_DOC,
+    out = [HEADER % "muduo/net/TcpConnection.cc, Channel.cc, muduo/base/WeakCallback.h", "import MuduoVerif.Model.ConnSkelDecl\n", HEAD_DOC,
            "namespace MuduoVerif.Gen.ConnSkel", "open MuduoVerif.ConnSkel\n"]
     todo = [(lean, "TcpConnection", the_function(docs, cxx, nparams=np)) for lean, cxx, np in CONN_FUNCTIONS]
     todo.append(("handleEventWithGuard", "Channel", the_function(cdocs, "handleEventWithGuard")))
@@ -590,5 +685,25 @@ def generate():
             out.append("def %s : List Skel :=\n  [\n%s\n  ]\n" % (lean, render(items, 4)))
         else:
             out.append("def %s : List Skel := []\n" % lean)
+    # the trampolines that run the connection's weak functors, and the default callbacks
+    for name in FREE_FUNCTIONS:
+        fn = free_function(name)
+        w = FreeWalker("TcpConnection.cc", name)
+        items = []
+        w.stmt(body_of(fn), items)
+        ptypes = [ctype(k) for k in kids(fn) if k.get("kind") == "ParmVarDecl"]
+        out.append("/-- `%s(%s)` (TcpConnection.cc) -/" % (name, ", ".join(ptypes)))
+        out.append(("def %s : List Skel :=\n  [\n%s\n  ]\n" % (name, render(items, 4))) if items else "def %s : List Skel := []\n" % name)
+    skels = []
+    for m in weak_callback_instances():
+        w = FreeWalker("WeakCallback", "operator()")
+        items = []
+        w.stmt(body_of(m), items)
+        skels.append(items)
+    if any(sk != skels[0] for sk in skels[1:]):
+        raise ExtractError("WeakCallback::operator(): the instantiations in TcpConnection.cc differ in statement structure")
+    out.append("/-- `WeakCallback::operator()(ARGS&&...)` (muduo/base/WeakCallback.h; %d instantiation%s in TcpConnection.cc, all\n"
+               "with this skeleton; the forwarded parameter pack is printed as `args...`) -/" % (len(skels), "" if len(skels) == 1 else "s"))
+    out.append("def weakCallbackCall : List Skel :=\n  [\n%s\n  ]\n" % render(skels[0], 4))
     out.append("end MuduoVerif.Gen.ConnSkel")
     return "\n".join(out) + "\n"
